@@ -20,7 +20,9 @@ RULE = ('send: 1-5 method calls through DBusClientConnection.callRemote on a UNI
         'each no later than the read that completes its message, arbitrarily early otherwise), with byte-level read '
         'splitting; oracle: every delivered message resolves its h arguments to the tokens attached at those '
         'positions and no token is left over. recv_enum: all placements for <=3 messages x <=2 descriptors each '
-        'with message-granular reads (exhaustive). recv_burst: 6/9/14 descriptor-carrying messages (up to 42 '
+        'with message-granular reads (exhaustive). a quarter of the random cases and every enumerated placement also run with '
+        'a server-role receiver that goes through the real handshake (authenticator agreeing to descriptor passing) and gets '
+        'its first messages pipelined behind BEGIN. recv_burst: 6/9/14 descriptor-carrying messages (up to 42 '
         'descriptors) whose descriptors are all, or all but the last few, queued before the first byte, under four '
         'chunkings. Non-trivial = >=2 descriptor-carrying messages with a descriptor '
         'of a later message queued before an earlier message completes; distinct = distinct case JSON.')
@@ -279,10 +281,52 @@ def run_recv(case):
             self.got.append(m)
         methodReturnReceived = errorReceived = signalReceived = methodCallReceived
 
-    r = Rec()
-    r.transport = N.FakeUnixTransport()
-    r._receivedFDs = []
-    r._authenticated = True
+    if case.get('handshake'):
+        # the receiver is a server-side protocol that goes through the real handshake (with an authenticator that agrees
+        # to descriptor passing); the peer pipelines its first messages behind BEGIN, so their descriptors ride on the
+        # bytes of BEGIN and arrive before the handshake is over - a legal order on a stream socket
+        from txdbus import authentication as AU
+
+        class Agreeing(AU.BusAuthenticator):
+            def _auth_NEGOTIATE_UNIX_FD(self, line):
+                if self.state == 'WaitingForBegin':
+                    self.sendAuthMessage(b'AGREE_UNIX_FD')
+                else:
+                    self.sendError()
+
+        class _Bus:
+            uuid = b'0123456789abcdef0123456789abcdef'
+
+        class _Factory:
+            bus = _Bus()
+
+        class SrvRec(Rec):
+            _client = False
+            authenticator = Agreeing
+            factory = _Factory()
+        saved_linux = P._is_linux
+        P._is_linux = False
+        try:
+            r = SrvRec()
+            r.makeConnection(N.FakeUnixTransport())
+            N.deliver(r, b'\0AUTH ANONYMOUS\r\nNEGOTIATE_UNIX_FD\r\n')
+        finally:
+            P._is_linux = saved_linux
+        if r.transport.disconnected:
+            return [Disc('recv.handshake-refused', repr(r.transport.take()))]
+        first = True
+        patched = []
+        for kind, item in events:
+            if kind == 'read' and first:
+                item = b'BEGIN\r\n' + item
+                first = False
+            patched.append((kind, item))
+        events = patched
+    else:
+        r = Rec()
+        r.transport = N.FakeUnixTransport()
+        r._receivedFDs = []
+        r._authenticated = True
     for kind, item in events:
         try:
             if kind == 'fd':
@@ -335,6 +379,8 @@ def classify_recv(case):
         labels.append('later_fd_queued_early')
     if len(case['cuts']) > len(stream):
         labels.append('split_reads')
+    if case.get('handshake'):
+        labels.append('pipelined_behind_BEGIN')
     if placement and max(sum(1 for _, r in placement if r <= i) - sum(len(stream[mj][1]) for mj in carriers if comp[mj] < i)
                          for i in range(len(bounds))) > 16:
         labels.append('>16 descriptors queued at once')
@@ -380,6 +426,7 @@ def recv_case(draw, tier):
         case['cuts'] = sorted(set(draw(st.lists(st.integers(1, max(1, total - 1)), min_size=k, max_size=k))))
     else:
         case['cuts'] = list(range(1, total)) if total < 400 else []
+    case['handshake'] = draw(st.integers(0, 3)) == 0
     return case
 
 
@@ -413,6 +460,8 @@ def enum_recv(tier):
                     continue
                 seen.add(ev)
                 yield case
+                if nfd:
+                    yield dict(case, handshake=True)
 
 
 def enum_recv_burst(tier):
